@@ -9,6 +9,7 @@ from ..ir import Program, AnchorError, callee_name, op_local
 from ..fieldpoly import Interp, Poly, Unsupported
 from ..flow import flow
 from .. import numth
+from . import repr_range
 
 F = "winter_math::field::"
 EXT = "winter_math::field::traits::ExtensibleField"
@@ -221,6 +222,8 @@ def run(ck):
         generic(ck, prog, fld, d, irr, p, base, ref_frob)
     ck.floor("ExtensibleField impls with a documented irreducible", n_impls, 5)
     layout(ck, prog)
+    ck.rule("REPR", "f62: every constructed BaseElement holds a value in the documented lazy range [0, 2M) (the extension code feeds results of neg/sub/double straight into further operations)")
+    repr_range.run_rule(ck, prog)
     # control: the engine distinguishes x^2 - x - 1 from x^2 - x + 2
     p = modulus(prog, "f64")
     a, b = vec("a", 2, p), vec("b", 2, p)
